@@ -472,5 +472,5 @@ def run(ctx):
 
     warnings.simplefilter("ignore")
     rq, sub = strategies()
-    ctx.hyp("request", rq, 2200 if ctx.quick else 8000)
-    ctx.hyp("substore", sub, 700 if ctx.quick else 3000)
+    ctx.hyp("request", rq, 2200 if ctx.quick else 20000)
+    ctx.hyp("substore", sub, 700 if ctx.quick else 6000)
